@@ -26,6 +26,14 @@ instance (f : Fam) (x : Obj) : Decidable (Valid f x) :=
   if h : x.ip < 2 ^ f.w ∧ x.len ≤ f.w ∧ x.net = netOf f x.ip x.len
   then isTrue ⟨h.1, h.2.1, h.2.2⟩ else isFalse (fun v => h ⟨v.1, v.2, v.3⟩)
 
+/-- decidable equality of results, for the `decide`d examples -/
+instance {α : Type} [DecidableEq α] : DecidableEq (Except Err α) := fun a b =>
+  match a, b with
+  | .ok x, .ok y => if h : x = y then isTrue (by rw [h]) else isFalse (fun e => h (by cases e; rfl))
+  | .error x, .error y => if h : x = y then isTrue (by rw [h]) else isFalse (fun e => h (by cases e; rfl))
+  | .ok _, .error _ => isFalse (fun e => by cases e)
+  | .error _, .ok _ => isFalse (fun e => by cases e)
+
 /-- number of host bits -/
 def hb (f : Fam) (x : Obj) : Nat := f.w - x.len
 
@@ -448,5 +456,82 @@ theorem getOffset_spec (f : Fam) (ok : f.Ok) (x : Obj) (v : Valid f x) :
       have : ¬ ((x.ip : Int) - (x.net : Int) > ((1 : Nat) : Int)) := by omega
       simp only [h1, h3, if_false, this, false_and]
 
+
+/-! ### sorting and longest match -/
+
+theorem lt_false_iff (x y : Obj) : lt x y = false ↔ ¬ LexLt x y := by
+  rw [← lt_iff_lex]; simp
+
+/-- `sorted` returns a permutation in which no later element is less than an earlier one -/
+theorem sorted_spec (l : List Obj) :
+    (sorted l).Perm l ∧ (sorted l).Pairwise (fun a b => lt b a = false) := by
+  refine ⟨List.mergeSort_perm l _, ?_⟩
+  have := List.pairwise_mergeSort (le := fun a b => !(lt b a))
+    (fun a b c h1 h2 => by
+      simp only [Bool.not_eq_eq_eq_not, Bool.not_true] at h1 h2 ⊢
+      rw [lt_false_iff] at h1 h2 ⊢
+      intro h; rcases lex_negtrans c b a h with h' | h'
+      · exact h2 h'
+      · exact h1 h')
+    (fun a b => by
+      simp only [Bool.or_eq_true, Bool.not_eq_eq_eq_not, Bool.not_true]
+      rw [lt_false_iff, lt_false_iff]
+      by_cases h : LexLt b a
+      · right; exact lex_asymm b a h
+      · left; exact h) l
+  refine this.imp ?_
+  intro a b h; simpa using h
+
+/-- a strictly more specific prefix of the same or an inner network sorts after its container -/
+theorem specific_after (f : Fam) (y x : Obj) (vy : Valid f y) (vx : Valid f x)
+    (hc : PrefixOf f y x) (hl : y.len < x.len) : LexLt y x := by
+  have := (interval_iff_prefix f y x vy vx).mpr hc
+  unfold IntervalIn at this
+  unfold LexLt
+  omega
+
+/-- two networks containing a common object are nested -/
+theorem nested_of_common (f : Fam) (r r' x : Obj) (h : PrefixOf f r x) (h' : PrefixOf f r' x)
+    (hl : r.len ≤ r'.len) (hr' : r'.len ≤ f.w) : PrefixOf f r r' := by
+  refine ⟨hl, ?_⟩
+  have h1 := h.2; have h2 := h'.2
+  simp only [Nat.shiftRight_eq_div_pow] at h1 h2 ⊢
+  -- drop further bits from the agreement at r'.len
+  have e : f.w - r.len = (f.w - r'.len) + (r'.len - r.len) := by omega
+  rw [← h1, e, Nat.pow_add, ← Nat.div_div_eq_div_mul, ← Nat.div_div_eq_div_mul, h2]
+
+/-- the longest-match idiom of the class docstring: in a list sorted in descending order the first
+route containing `x` has the longest prefix among all routes containing `x` -/
+theorem longest_match_first' (f : Fam) (rt : List Obj) (x r : Obj)
+    (hv : ∀ q ∈ rt, Valid f q) (vx : Valid f x)
+    (hs : rt.Pairwise (fun a b => lt a b = false))
+    (hf : rt.find? (fun q => contains4 f q x) = some r) :
+    ∀ r' ∈ rt, contains4 f r' x = true → r'.len ≤ r.len := by
+  induction rt with
+  | nil => simp at hf
+  | cons a t ih =>
+    rw [List.pairwise_cons] at hs
+    intro r' hr' hc'
+    by_cases ha : contains4 f a x = true
+    · simp only [List.find?_cons, ha, Option.some.injEq] at hf
+      subst hf
+      rcases List.mem_cons.mp hr' with rfl | hmem
+      · exact Nat.le_refl _
+      · apply Nat.le_of_not_lt
+        intro hlt
+        have va := hv a (List.mem_cons_self ..)
+        have vr' := hv r' hr'
+        have p1 := (contains4_iff_prefix f a x va vx).mp ha
+        have p2 := (contains4_iff_prefix f r' x vr' vx).mp hc'
+        have nest := nested_of_common f a r' x p1 p2 (Nat.le_of_lt hlt) vr'.len_le
+        have := specific_after f a r' va vr' nest hlt
+        have h2 := hs.1 r' hmem
+        rw [lt_false_iff] at h2
+        exact h2 this
+    · have ha' : contains4 f a x = false := by simpa using ha
+      simp only [List.find?_cons, ha'] at hf
+      rcases List.mem_cons.mp hr' with rfl | hmem
+      · exact absurd hc' ha
+      · exact ih (fun q hq => hv q (List.mem_cons_of_mem _ hq)) hs.2 hf r' hmem hc'
 
 end Ccp.IPVal
